@@ -240,52 +240,86 @@ def glue(repo: Path) -> dict:
         raise Unsupported("compile function is not `return lambdify((...), matrix)`")
     lam_args = [_norm(e) for e in cb[0].value.args[0].elts]
     matrix = _norm(cb[0].value.args[1])
-    if not (len(store.targets) == 1 and isinstance(store.targets[0], ast.Name) and len(store.value.keys) == 2
+    if not (len(store.targets) == 1 and isinstance(store.targets[0], ast.Name) and len(store.value.keys) in (2, 3)
             and all(isinstance(k, ast.Constant) and isinstance(k.value, str) for k in store.value.keys)):
-        raise Unsupported("remembered pair is not a two-entry dict with string keys")
+        raise Unsupported("remembered state is not a dict with two or three string keys")
     sname = store.targets[0].id
-    fn_key = val_key = compiled_from = None
+    CACHE = "model._create_cache()"
+    fn_key = val_key = cache_key = compiled_from = None
     for k, v in zip(store.value.keys, store.value.values):
         if isinstance(v, ast.Call) and isinstance(v.func, ast.Name) and v.func.id == compile_fn.name and not v.args:
             fn_key = k.value
-        else:
+        elif _norm(v) == CACHE:
+            cache_key = k.value
+        elif val_key is None:
             val_key, compiled_from = k.value, _norm(v)
+        else:
+            raise Unsupported(f"remembered state: unrecognised entry {k.value!r}: {_norm(v)}")
     if fn_key is None or val_key is None:
-        raise Unsupported("remembered pair does not hold the compiled function and the values")
+        raise Unsupported("remembered state does not hold the compiled function and the values")
 
     def is_slot(n, key):
-        return (isinstance(n, ast.Subscript) and isinstance(n.value, ast.Name) and n.value.id == sname
+        return (key is not None and isinstance(n, ast.Subscript) and isinstance(n.value, ast.Name) and n.value.id == sname
                 and isinstance(n.slice, ast.Constant) and n.slice.value == key)
 
     # --- the closure
-    if [a.arg for a in closure.args.args].__len__() != 2 or closure.args.vararg or closure.args.kwarg or closure.args.kwonlyargs:
+    if len(closure.args.args) != 2 or closure.args.vararg or closure.args.kwarg or closure.args.kwonlyargs:
         raise Unsupported("the closure does not take (t, x)")
     tn, xn = [a.arg for a in closure.args.args]
     body = _strip_doc(closure.body)
-    if not (body and isinstance(body[0], ast.Assign) and len(body[0].targets) == 1 and isinstance(body[0].targets[0], ast.Name)):
+    # leading `local = <expr>`: the current values, and (optionally) the model's current cache object
+    vn = cn = values_from = None
+    while body and isinstance(body[0], ast.Assign) and len(body[0].targets) == 1 and isinstance(body[0].targets[0], ast.Name):
+        src_ = _norm(body[0].value)
+        if src_ == CACHE and cn is None:
+            cn = body[0].targets[0].id
+        elif vn is None:
+            vn, values_from = body[0].targets[0].id, src_
+        else:
+            raise Unsupported(f"the closure reads something else first: {ast.unparse(body[0])[:60]}")
+        body = body[1:]
+    if vn is None:
         raise Unsupported("the closure does not start by reading the current values into a local")
-    vn = body[0].targets[0].id
-    values_from = _norm(body[0].value)
-    rest = body[1:]
-    recompile = stores = False
+    rest = body
+    recompile = stores = watches = stores_cache = False
+    compile_first = True
     if len(rest) == 2 and isinstance(rest[0], ast.If):
         iff: ast.If = rest[0]
-        t_ = iff.test
-        ok_test = (isinstance(t_, ast.Compare) and len(t_.ops) == 1 and isinstance(t_.ops[0], ast.NotEq) and (
-            (isinstance(t_.left, ast.Name) and t_.left.id == vn and is_slot(t_.comparators[0], val_key)) or
-            (isinstance(t_.comparators[0], ast.Name) and t_.comparators[0].id == vn and is_slot(t_.left, val_key))))
-        if not ok_test or iff.orelse:
-            raise Unsupported(f"recompile condition: {ast.unparse(t_)}")
-        for st in iff.body:
+        if iff.orelse:
+            raise Unsupported("recompile branch with an else")
+        tests = iff.test.values if isinstance(iff.test, ast.BoolOp) and isinstance(iff.test.op, ast.Or) else [iff.test]
+        val_test = cache_test = False
+        for t_ in tests:
+            if not (isinstance(t_, ast.Compare) and len(t_.ops) == 1):
+                raise Unsupported(f"recompile condition: {ast.unparse(iff.test)}")
+            l_, r_ = t_.left, t_.comparators[0]
+            if isinstance(r_, ast.Name):
+                l_, r_ = r_, l_
+            if isinstance(t_.ops[0], ast.NotEq) and isinstance(l_, ast.Name) and l_.id == vn and is_slot(r_, val_key):
+                val_test = True
+            elif (isinstance(t_.ops[0], ast.IsNot) and isinstance(l_, ast.Name) and cn is not None and l_.id == cn
+                  and is_slot(r_, cache_key)):
+                cache_test = True
+            else:
+                raise Unsupported(f"recompile condition: {ast.unparse(t_)}")
+        fn_again = False
+        for pos, st in enumerate(iff.body):
             if isinstance(st, ast.Assign) and len(st.targets) == 1 and is_slot(st.targets[0], fn_key) \
                     and isinstance(st.value, ast.Call) and isinstance(st.value.func, ast.Name) \
                     and st.value.func.id == compile_fn.name and not st.value.args:
-                recompile = True
+                fn_again = True
+                # exception safety: what the closure remembers is replaced only after the compilation has succeeded
+                compile_first = pos == 0
             elif isinstance(st, ast.Assign) and len(st.targets) == 1 and is_slot(st.targets[0], val_key) \
                     and isinstance(st.value, ast.Name) and st.value.id == vn:
                 stores = True
+            elif isinstance(st, ast.Assign) and len(st.targets) == 1 and is_slot(st.targets[0], cache_key) \
+                    and isinstance(st.value, ast.Name) and st.value.id == cn:
+                stores_cache = True
             else:
                 raise Unsupported(f"statement in the recompile branch: {ast.unparse(st)[:60]}")
+        recompile = fn_again and val_test
+        watches = fn_again and cache_test
         rest = rest[1:]
     if not (len(rest) == 1 and isinstance(rest[0], ast.Return) and isinstance(rest[0].value, ast.Call)
             and is_slot(rest[0].value.func, fn_key) and not rest[0].value.keywords):
@@ -339,7 +373,10 @@ def glue(repo: Path) -> dict:
             parsites.append(name)
     return {
         "lambdifyArgs": lam_args, "callArgs": call_args, "valuesFrom": values_from, "compiledFrom": compiled_from,
-        "matrix": matrix, "recompileOnChange": recompile, "storesValues": stores, "compileInsideTry": True,
+        "matrix": matrix, "recompileOnChange": recompile, "storesValues": stores,
+        "watchesModel": watches, "storesCache": stores_cache, "cacheFrom": CACHE if cache_key is not None else "",
+        "compileBeforeStore": compile_first,
+        "compileInsideTry": True,
         "catchesAll": catches_all, "fallbackNone": fb_none, "fallbackWarns": warns, "integratorGetsJac": gets_jac,
         "onlyWhenRequested": True, "reinitSites": sorted(reinit), "parameterSites": sorted(parsites),
     }
@@ -388,7 +425,9 @@ def _lean_glue(g: dict) -> str:
         "{ lambdifyArgs := " + sl(g["lambdifyArgs"]) + ",\n    callArgs := " + sl(g["callArgs"]) +
         ",\n    valuesFrom := " + _lean_str(g["valuesFrom"]) + ",\n    compiledFrom := " + _lean_str(g["compiledFrom"]) +
         ",\n    matrix := " + _lean_str(g["matrix"]) +
-        "".join(f",\n    {k} := {b(g[k])}" for k in ("recompileOnChange", "storesValues", "compileInsideTry", "catchesAll",
+        ",\n    cacheFrom := " + _lean_str(g["cacheFrom"]) +
+        "".join(f",\n    {k} := {b(g[k])}" for k in ("recompileOnChange", "storesValues", "watchesModel", "storesCache",
+                                                    "compileBeforeStore", "compileInsideTry", "catchesAll",
                                                     "fallbackNone", "fallbackWarns", "integratorGetsJac", "onlyWhenRequested")) +
         ",\n    reinitSites := " + sl(g["reinitSites"]) + ",\n    parameterSites := " + sl(g["parameterSites"]) + " }"
     )
